@@ -30,7 +30,7 @@ ASSUMPTIONS = [
 ]
 PLAN = {"quick": dict(programs=500, topologies=1400, depth=3), "thorough": dict(programs=12000, topologies=40000, depth=5)}
 FLOORS = {"quick": {"sequences_checked": 15000, "deferred_nodes_seen": 3000, "equivalences_checked": 3000, "topology_roots": 8000, "same_name_two_module_topologies": 200, "bare_and_parameterised_roots": 2000, "two_labels_one_type_roots": 1500},
-          "thorough": {"sequences_checked": 400000, "deferred_nodes_seen": 80000, "equivalences_checked": 80000, "topology_roots": 200000, "bare_and_parameterised_roots": 50000, "two_labels_one_type_roots": 40000}}
+          "thorough": {"sequences_checked": 400000, "deferred_nodes_seen": 80000, "equivalences_checked": 80000, "topology_roots": 200000, "bare_and_parameterised_roots": 40000, "two_labels_one_type_roots": 25000}}
 STEP_BUDGET = 2_000_000
 
 
